@@ -136,20 +136,22 @@ def run_cli(argv, stdin_bytes=None, interrupt_after=None):
     import auditok.io as aio
     import time as _time
 
-    class Clock:
-        def __init__(self):
-            self.n = 0
+    # the main loop of cmdline.main sleeps one second per turn: time.sleep is replaced for the main thread, in the time module
+    # itself (so that `import time; time.sleep(1)` and `from time import sleep; sleep(1)` are both served)
+    real_sleep = _time.sleep
+    counter = {"n": 0}
 
-        def sleep(self, s):
-            self.n += 1
-            if interrupt_after is not None and self.n > interrupt_after:
-                raise KeyboardInterrupt
-            _time.sleep(0.0005)
-
-        def __getattr__(self, name):
-            return getattr(_time, name)
-    saved_time = cmd.time
-    cmd.time = Clock()
+    def fake_sleep(s):
+        if threading.current_thread() is not threading.main_thread():
+            return real_sleep(s)
+        counter["n"] += 1
+        if interrupt_after is not None and counter["n"] > interrupt_after:
+            raise KeyboardInterrupt
+        real_sleep(0.0005)
+    _time.sleep = fake_sleep
+    saved_names = {k: v for k, v in vars(cmd).items() if v is real_sleep}
+    for k in saved_names:
+        setattr(cmd, k, fake_sleep)
     out, err = io.StringIO(), io.StringIO()
     old_stdin = aio.sys.stdin
     if stdin_bytes is not None:
@@ -179,7 +181,9 @@ def run_cli(argv, stdin_bytes=None, interrupt_after=None):
     finally:
         signal.setitimer(signal.ITIMER_REAL, 0)
         signal.signal(signal.SIGALRM, old_handler)
-        cmd.time = saved_time
+        _time.sleep = real_sleep
+        for k, v in saved_names.items():
+            setattr(cmd, k, v)
         aio.sys.stdin = old_stdin
     # leftover threads (a failure path that did not stop them): give them a moment, report them, then stop them
     deadline = _time.time() + 1.0
